@@ -261,7 +261,8 @@ def _run(mask, op, sel, cvar, vsel, plsel):
         return _step(mask, op, sel, cvar, VPOOL[vsel], plsel, 3)
     from crosshair.core import realize
     from crosshair.tracers import NoTracing
-    a = [realize(x) for x in (mask, op, sel, cvar, vsel, plsel)]
+    from selpick import pick_all
+    a = pick_all((mask, op, sel, cvar, vsel, plsel))
     with NoTracing():
         return _step(a[0], a[1], a[2], a[3], VPOOL[a[4]], a[5], 3)
 
